@@ -1207,6 +1207,30 @@ def _tile(I, a, k):
     raise Unsupported("np.tile other than tile(1-d, (k, 1))")
 
 
+@model(np.repeat)
+def _repeat(I, a, k):
+    """np.repeat([v0, v1, ...], [n0, n1, ...]): v0 n0 times, then v1 n1 times, ... (counts may be symbolic, assumed >= 0 as NumPy demands)"""
+    if not _anysym(a, k):
+        return NotImplemented
+    vals, reps = a[0], (a[1] if len(a) > 1 else k.get("repeats"))
+    if not isinstance(vals, (list, tuple)) or not isinstance(reps, (list, tuple)) or len(vals) != len(reps) or k.get("axis") is not None:
+        raise Unsupported("np.repeat other than repeat(list of k scalars, list of k counts)")
+    from .core import to_real as as_real
+    vt = [as_real(term(v)) if not isinstance(v, (int, float)) else z3.RealVal(repr(float(v))) for v in vals]
+    bounds, acc = [], z3.IntVal(0)
+    for r in reps:
+        A.oblige("repeat.count_non_negative", A.T(r) >= 0, "np.repeat raises on a negative count")
+        acc = acc + A.T(r)
+        bounds.append(acc)
+
+    def elem(idx):
+        e = vt[-1]
+        for v_, b_ in reversed(list(zip(vt[:-1], bounds[:-1]))):
+            e = z3.If(idx[0] < b_, v_, e)
+        return e
+    return SArr(np.float64, (wrap(z3.simplify(acc)),), elem)
+
+
 # ----------------------------------------------------------------------------- order statistics (A-NP-SPEC)
 def _argmax_axioms(nan_aware):
     def ax(along, n, r):
